@@ -209,8 +209,15 @@ def e2e(ctx):
 
 def run_cases(ctx, stage, cases):
     out = []
+    hangs = 0
     for c in cases:
+        if hangs >= 4:
+            # the implementation hangs again and again: report what was seen instead of waiting for every watchdog
+            out.append({'out': {'__skipped__': True}, 'requests': [], 'classes': [], 'files': {}})
+            continue
         r = uc.run_upfile(ctx, stage, c['provider'], c['sizes'], c['seed'], c['ending'], c['max'], c['faults'], c['preset'])
+        if isinstance(r['out'], dict) and r['out'].get('__timeout__'):
+            hangs += 1
         out.append(r)
     return out
 
@@ -242,6 +249,8 @@ def judge(ctx, cases, results):
             kinds[kind] = kinds.get(kind, 0) + 1
         for cls, kind in c.get('fault_at', []):
             endpoints['%s/%s' % (c['provider'], cls)] = endpoints.get('%s/%s' % (c['provider'], cls), 0) + 1
+        if isinstance(r['out'], dict) and r['out'].get('__skipped__'):
+            continue
         if not isinstance(r['out'], dict) or 'result' not in r['out']:
             ctx.violation('runtime', 'upload_file did not return (panic, hang or harness failure): %s' % str(r['out'])[:200], {'case': desc})
             continue
